@@ -6,7 +6,7 @@ from ..driver import Prop
 class C12(Prop):
     id = 'C12'
     design_ref = 'DESIGN.md section 4 / C12'
-    budgets = {'quick': 100000, 'thorough': 2000000}
+    budgets = {'quick': 100000, 'thorough': 1000000}
 
     def gen(self, rng, index, tier):
         return maintsim.gen_case(rng)
